@@ -60,6 +60,7 @@ type Snap struct {
 	MaxVals  uint32
 	NBonded  int
 	NRecords int
+	MaxUbHeight int64 // largest unbonding height among validators still unbonding
 }
 
 func (n *Node) Snap() Snap {
@@ -90,6 +91,9 @@ func (n *Node) Snap() Snap {
 		if v.Status == stakingtypes.Bonded && !v.Jailed {
 			s.NBonded++
 		}
+		if v.Status == stakingtypes.Unbonding && v.UnbondingHeight > s.MaxUbHeight {
+			s.MaxUbHeight = v.UnbondingHeight
+		}
 	}
 	if pv, err := n.App.POAKeeper.GetPendingValidators(ctx); err == nil {
 		for _, p := range pv.Validators {
@@ -109,6 +113,7 @@ func (n *Node) Snap() Snap {
 type GenCfg struct {
 	Mode      string // wild | envelope
 	MaxBlocks int
+	Restarts  bool
 }
 
 type Gen struct {
@@ -132,7 +137,11 @@ func (g *Gen) Genesis() Genesis {
 	r := g.R
 	nv := 2 + r.N(5) // 2..6
 	gen := Genesis{Window: 4, MinSigned: 2, MinSignedDec: "0.5", JailNs: 2_000_000_000, MinCommE18: 0}
-	switch r.N(3) {
+	mv := r.N(3)
+	if g.Cfg.Mode != "wild" && r.P(75) {
+		mv = 2
+	}
+	switch mv {
 	case 0:
 		gen.MaxVals = uint32(nv)
 	case 1:
@@ -194,7 +203,7 @@ func (g *Gen) pickTarget(s Snap) int {
 	unb := g.classOps(s, func(o OpInfo) bool { return o.Exists && o.Status != 3 && !o.Jailed })
 	pend := g.classOps(s, func(o OpInfo) bool { return o.Pending })
 	unk := g.classOps(s, func(o OpInfo) bool { return !o.Exists && !o.Pending })
-	envelope := g.Cfg.Mode == "envelope"
+	envelope := g.Cfg.Mode == "envelope" || g.Cfg.Mode == "calm"
 	for tries := 0; tries < 20; tries++ {
 		var c int
 		if envelope {
@@ -299,7 +308,7 @@ func (g *Gen) msgSetPower(s Snap, t int) Msg {
 func (g *Gen) msgCreate(op int, s Snap) Msg {
 	r := g.R
 	key := op
-	if g.Cfg.Mode != "envelope" {
+	if g.Cfg.Mode == "wild" {
 		switch r.W(70, 10, 8, 6, 6) {
 		case 1: // key of another operator (maybe in use)
 			key = r.N(NOPS)
@@ -363,7 +372,7 @@ func (g *Gen) msgParams(s Snap) Msg {
 	case 2:
 		maxVals = 0
 	case 3:
-		unbond = []int64{0, -1, 1}[r.N(3)]
+		unbond = []int64{0, -1, -1_000_000_000}[r.N(3)] // invalid values only: a valid but tiny unbonding time lets a removed validator mature while CometBFT still reports its votes
 	case 4:
 		denom = 2
 	case 5:
@@ -395,13 +404,55 @@ func (g *Gen) wrap(m Msg) Msg {
 // GenTx produces one transaction given the current snapshot.
 func (g *Gen) GenTx(s Snap, height int64) Tx {
 	r := g.R
-	envelope := g.Cfg.Mode == "envelope"
+	envelope := g.Cfg.Mode == "envelope" || g.Cfg.Mode == "calm"
 	kind := r.W(34, 12, 6, 14, 6, 8, 3, 6, 3, 3, 5)
 	if envelope {
 		kind = r.W(40, 12, 6, 18, 6, 8, 2, 4, 2, 1, 1)
 	}
 	switch kind {
 	case 0: // SETPOWER
+		if envelope {
+			// steer away from the known triggers: only pending applicants or bonded validators that were
+			// never updated before, increases only, one message per transaction
+			var fresh []int
+			for i, o := range s.Ops {
+				if o.Pending && !o.Exists && !g.everUpdated[i] {
+					fresh = append(fresh, i)
+				}
+			}
+			for i, o := range s.Ops {
+				if o.Exists && o.Status == 3 && !o.Jailed && !g.everUpdated[i] {
+					fresh = append(fresh, i)
+				}
+			}
+			if len(fresh) == 0 {
+				return Tx{Signer: -1, Msgs: []Msg{{Kind: "OTHER"}}}
+			}
+			t := r.Pick(fresh)
+			cur := s.Ops[t].Tokens / 1_000_000
+			var p uint64
+			switch r.W(50, 30, 20) {
+			case 0:
+				p = uint64(cur+1+int64(r.N(3))) * 1_000_000
+			case 1:
+				p = g.pickPower(s, t)
+				if p < uint64(s.Ops[t].Tokens) || p >= 1<<62 {
+					p = uint64(cur+2) * 1_000_000
+				}
+			default:
+				p = uint64(cur+1)*1_000_000 + uint64(r.N(999_999))
+			}
+			if s.Ops[t].Exists {
+				g.everUpdated[t] = true
+			} else {
+				g.everUpdated[t] = true // admitted: owns only a power-0 entry afterwards
+			}
+			unsafe := "0"
+			if r.P(50) {
+				unsafe = "1"
+			}
+			return Tx{Signer: -1, Msgs: []Msg{{Kind: "SETPOWER", Args: []string{itoa(t), itoa(p), unsafe}}}}
+		}
 		signer := -1
 		if r.P(10) {
 			signer = []int{-2, r.N(NOPS)}[r.N(2)]
@@ -422,6 +473,19 @@ func (g *Gen) GenTx(s Snap, height int64) Tx {
 		return Tx{Signer: signer, Msgs: msgs}
 	case 1: // REMOVE
 		t := g.pickTarget(s)
+		if envelope {
+			var cand []int
+			for i, o := range s.Ops {
+				if o.Exists && o.Status == 3 && !o.Jailed && !g.everUpdated[i] {
+					cand = append(cand, i)
+				}
+			}
+			if len(cand) == 0 {
+				return Tx{Signer: -1, Msgs: []Msg{{Kind: "OTHER"}}}
+			}
+			t = r.Pick(cand)
+			g.everUpdated[t] = true
+		}
 		signer := -1
 		switch r.W(60, 25, 15) {
 		case 1:
